@@ -9,7 +9,9 @@ package proxy
 // the shared target, and what simultaneous requests do to that is property C06's subject.
 
 import (
+	"errors"
 	"fmt"
+	"net"
 	"net/url"
 	"strings"
 	"testing"
@@ -25,7 +27,10 @@ func c13Tpl(cs *cvxCase) string {
 }
 
 func c13Describe(cs *cvxCase) string {
-	s := "GET "
+	s := cs.C.Method + " "
+	if cs.C.Kind != "" && cs.C.Kind != "http" {
+		s = cs.C.Method + " (" + cs.C.Kind + ") "
+	}
 	if cs.C.TLS {
 		s += "https://"
 	} else {
@@ -40,7 +45,7 @@ func c13Describe(cs *cvxCase) string {
 	}
 	for _, r := range cs.C.Routes {
 		if r.Code.Txt != "" {
-			s += fmt.Sprintf(" | route %s -> %s redirect=%s strip=%s prepend=%s", cvxJoin(r.Src), cvxTplText(r.Tpl, "<self>", "<upstream>"), r.Code.Txt, cvxJoin(r.Strip), cvxJoin(r.Prepend))
+			s += fmt.Sprintf(" | route %s -> %s redirect=%s strip=%s prepend=%s", cvxOpt(r.Src), cvxTplText(r.Tpl, "<self>", "<upstream>"), r.Code.Txt, cvxOpt(r.Strip), cvxOpt(r.Prepend))
 		} else {
 			s += fmt.Sprintf(" | route %s -> upstream", cvxJoin(r.Src))
 		}
@@ -72,6 +77,12 @@ func c13WantLocation(cs *cvxCase) string {
 
 func c13Features(cs *cvxCase, clause string) map[string]any {
 	f := map[string]any{"sub": cs.C.Sub, "clause": clause, "tpl": c13Tpl(cs)}
+	if cs.C.Sub == "kinds" {
+		f["method"], f["kind"] = cs.C.Method, cs.C.Kind
+	}
+	if len(cs.C.Routes) > 0 && (cvxOptionNeedsEscape(cs.C.Routes[0].Strip) || cvxOptionNeedsEscape(cs.C.Routes[0].Prepend)) {
+		f["option_needs_escape"] = true
+	}
 	if clause == "self-redirect" {
 		f["tls"] = cs.C.TLS
 		f["xfp"] = cs.C.XfpVal
@@ -154,8 +165,30 @@ func c13Exec(w *cvxWorld, j *cvxJob) bool {
 		w.plans.Store(j.id, &cvxPlan{Status: status, Hdr: hdr, Body: 1})
 		defer w.plans.Delete(j.id)
 	}
-	got, rid, err := w.doHTTP(cs, j.id)
+	// bodies: only POST carries one here (1 byte or 32 KiB + 1, Content-Length or chunked)
+	att := cvxAtt{}
+	if cs.C.Method == "POST" {
+		att.ReqBody, att.ReqChunked = cvxSizes[1+int(j.id%2)], j.id%4 >= 2
+	}
+	if cs.Att == nil || cs.Att.ReqBody != att.ReqBody || cs.Att.ReqChunked != att.ReqChunked {
+		cs.Att = &att
+	}
+	var got *cvxGot
+	var rid int64
+	var err error
+	if cs.C.Kind == "ws" || cs.C.Kind == "Ws" {
+		got, rid, err = w.doWS(cs, j.id)
+	} else {
+		got, rid, err = w.doHTTP(cs, j.id)
+	}
 	if err != nil {
+		var ne net.Error
+		if cs.Out.Kind == "redirect" && !strings.HasPrefix(err.Error(), "harness:") && !(errors.As(err, &ne) && ne.Timeout()) {
+			// a redirect route answers from the request alone: an exchange that breaks off on every
+			// attempt means the client never received its 3xx
+			fail("no-answer", "the exchange broke off on each of 4 attempts, the client never received the redirect: %v", err)
+			return true
+		}
 		w.errorf("case %d: %v (%s)", j.id, err, c13Describe(cs))
 		return false
 	}
